@@ -12,6 +12,22 @@ CHECKS = {
              tech="TLA+ bit-serial CRC spec evaluated by TLC over recorded library outputs (trace validation) + TLC model check of CRC algebra",
              ref="8/C18"),
 }
+CHECKS['C01'] = dict(
+    text="The TON representation hash/depth is an explicit TLA+ definition (TonCell over a pure-TLA+ SHA-256). TLC model-checks the DAG-growth "
+         "machine (hash equality = structural equality, depth definition, level flatness) and enumerates every heap within the constants; each "
+         "is replayed through six construction routes and TLC re-derives every reported hash/depth/equality from the recorded content. Random "
+         "part covers every data length 0..1023, shared DAGs and a depth-1023 chain.",
+    note="TonSha/TonCell transcriptions (anchored by FIPS vectors, the symbolic-hash invariants and the bundled main-net block in C02); TLC; recording driver",
+    tech="TLA+ cell-hash spec (pure-TLA+ SHA-256) model-checked by TLC; TLC-enumerated DAGs replayed into the library; recorded hashes validated by TLC",
+    ref="8/C01")
+CHECKS['C02'] = dict(
+    text="Level masks and per-level hashes/depths of pruned, library, Merkle-proof and Merkle-update cells are defined in TonCell (transcription of "
+         "DataCell::create). TLC checks pruning invariance, validity of the exotic constructors, mask laws and proof completeness on the DAG machine "
+         "and on a directed pruning machine (symbolic and real hash), emits every reachable heap; the library builds and parses each and TLC "
+         "re-derives mask/hash/depth at levels 0..3 of every cell, plus the 301-cell main-net block.",
+    note="TonCell transcription; TLC; stored hashes of the random prunings come from the library (inputs only)",
+    tech="TLA+ level-hash spec model-checked by TLC (pruning invariance); TLC-generated exotic DAGs replayed; recorded masks/hashes/depths validated by TLC",
+    ref="8/C02")
 NOT_APPLICABLE = []
 def main():
     checks = []
